@@ -419,6 +419,9 @@ def audit_cases():
             if sib:
                 r["sibling"] = sib
             runs.append(r)
+            if wrap > 0:
+                # the parent cell reachable only through the cells that instantiate it (not listed in lib.cells)
+                runs.append(dict(r, unlisted=True))
     out.append({"cells": cells, "nodes": base, "kind": "audit/library_levels", "same_set": True, "runs": runs})
     # the same with a failing parent: the whole call must fail, whatever surrounds the parent
     bad = [inst(1, R(0)), inst(1, R(0, TOP, LEFT))]
